@@ -1,7 +1,87 @@
-From OV.C03 Require Import Model Spec.
-From Coq Require Import List ZArith.
+(* C03 — memory-pool reservations never overlap and keep their contents.
+   Model.fixed is the source after fixes/C03-1..4 and fixes/C04-1; the *_refuted theorems show,
+   one repair at a time, what the model of the unrepaired source does. *)
+From Coq Require Import List ZArith Bool Sorting.Sorted.
+From OV.C03 Require Import Model Spec Statements Theorems.
 Import ListNotations.
 Local Open Scope Z_scope.
-Example placeholder : p_reserved (snd (run fixed state0 [OReserve 1 100])) = 128.
+
+(* For every history of reserve / slice / release / write / resize / shrinkToFit / setAlignment:
+   every reservation lies inside the buffer, reservations of different reserve() calls share no
+   byte, every byte of a slice is a byte of its live root, no migration copies outside a buffer
+   and the reservation set stays ordered by its keys. *)
+Theorem Inv_pool_every_history : forall ops, ops_ok ops ->
+  Inv_pool (snd (run fixed state0 ops)) (s_run sstate0 (map sop_of ops)).
+Proof. exact pool_invariant_holds. Qed.
+Print Assumptions Inv_pool_every_history.
+
+(* Every handle reads back exactly the bytes last written through it or through any handle
+   that overlaps it, whatever growing, compacting or re-aligning happened in between (those
+   operations do not exist in the reference semantics: sop_of maps them to SOther). *)
+Theorem contents_preserved : forall ops id, ops_ok ops ->
+  reads_ok (read (run fixed state0 ops) id) (s_read (s_run sstate0 (map sop_of ops)) id).
+Proof. exact contents_are_preserved. Qed.
+Print Assumptions contents_preserved.
+
+(* non-vacuity: a history that fragments the pool, packs it, re-aligns it twice and reads back *)
+Definition demo : list op :=
+  [OReserve 1 128; OReserve 2 100; OReserve 3 128; OSlice 4 2 10 20; OWrite 4 0 [7; 8; 9];
+   OFree 1; OFree 3; OReserve 5 256; OAlign 16; OFree 2; OAlign 256; OShrink].
+Example demo_ok : ops_ok demo.
+Proof. repeat constructor; cbn; discriminate. Qed.
+Example demo_layout :
+  map (fun r => (r_id r, r_off r, r_sz r)) (p_res (snd (run fixed state0 demo))) = [(4, 0, 20); (5, 256, 256)]
+  /\ p_size (snd (run fixed state0 demo)) = 512.
+Proof. vm_compute. split; reflexivity. Qed.
+Example demo_reads :
+  option_map (firstn 4) (read (run fixed state0 demo) 4) = Some [7; 8; 9; 0]
+  /\ option_map (firstn 4) (s_read (s_run sstate0 (map sop_of demo)) 4) = Some [Some 7; Some 8; Some 9; None].
+Proof. vm_compute. split; reflexivity. Qed.
+
+(* ------------------------------------------------------------------ the unrepaired source *)
+Definition without_force  : variant := mkVariant false true true true true.   (* fixes/C03-1 missing *)
+Definition without_round  : variant := mkVariant true false true true true.   (* fixes/C03-2 missing *)
+Definition without_resort : variant := mkVariant true true true false true.   (* fixes/C03-4 missing *)
+
+(* reserve 128 x3, release the 1st and 3rd, reserve 256: resize(384) is a no-op on a pool of 384
+   bytes and the new reservation [128,384) lies on top of the live [128,256) *)
+Definition frag : list op :=
+  [OReserve 1 128; OReserve 2 128; OReserve 3 128; OFree 1; OFree 3; OReserve 4 256].
+Theorem fragmented_equal_size_overlap_refuted :
+  ops_ok frag /\ ~ Inv_pool (snd (run without_force state0 frag)) (s_run sstate0 (map sop_of frag)).
+Proof.
+  split; [repeat constructor|].
+  intros (_ & B & _).
+  specialize (B (mkRes 2 128 128) (mkRes 4 128 256) (mkSres 2 1 0 128 true) (mkSres 4 3 0 256 true) 200).
+  vm_compute in B. assert (E : 1 = 3); [|discriminate E].
+  apply B; try reflexivity; try (split; congruence); auto.
+Qed.
+Print Assumptions fragmented_equal_size_overlap_refuted.
+
+(* two small slices of a released reservation become two blocks of 128 bytes although they were
+   accounted as 128 bytes together: the second block is copied past the end of the new buffer *)
+Definition orphans : list op :=
+  [OReserve 1 128; OSlice 2 1 0 10; OSlice 3 1 20 10; OFree 1; OReserve 4 128].
+Theorem sliced_blocks_overflow_refuted :
+  ops_ok orphans /\ ~ Inv_pool (snd (run without_round state0 orphans)) (s_run sstate0 (map sop_of orphans)).
+Proof.
+  split; [repeat constructor; cbn; discriminate|].
+  intros (_ & _ & _ & O & _). vm_compute in O. discriminate O.
+Qed.
+Print Assumptions sliced_blocks_overflow_refuted.
+
+(* two empty slices at different offsets are packed onto the same (offset,size): the order of
+   the std::set now contradicts its comparator unless the addresses happen to agree *)
+Definition empties : list op :=
+  [OReserve 1 512; OSlice 2 1 300 0; OSlice 3 1 100 0; OFree 1; OAlign 64].
+Theorem set_order_collapse_refuted :
+  ops_ok empties /\ ~ Inv_pool (snd (run without_resort state0 empties)) (s_run sstate0 (map sop_of empties)).
+Proof.
+  split; [repeat constructor; cbn; discriminate|].
+  intros (_ & _ & _ & _ & T & _). vm_compute in T. discriminate T.
+Qed.
+Print Assumptions set_order_collapse_refuted.
+
+(* the same three histories are fine in the repaired model (instances of the theorem above) *)
+Example frag_fixed : map (fun r => (r_id r, r_off r)) (p_res (snd (run fixed state0 frag))) = [(2, 0); (4, 128)].
 Proof. vm_compute. reflexivity. Qed.
-Print Assumptions placeholder.
